@@ -44,8 +44,14 @@ Do(op) == /\ ~done /\ (op.o = "tick" => now < MAXT)
           /\ succ' = IF Accepted(op) THEN succ \cup {op.p} ELSE succ
           /\ done' = (res'.ret[1] = "Finished")
           /\ hist' = Append(hist, op)
-MCNext == IF DEPTH > 0 THEN \E k \in {RandomElement({o.o : o \in Ops})} : \E op \in {RandomElement({o \in Ops : o.o = k})} : Do(op)
-        ELSE \E op \in Ops : Do(op)
+\* simulation draws the kind, then the peer, then the answer (the set Ops is not built: with triples it has thousands of elements per step)
+SimNext == \E k \in {RandomElement({"next", "tick"} \cup (IF contacted # <<>> THEN {"on_failure", "on_success"} ELSE {}))} :
+             CASE k = "next" -> Do([o |-> "next"])
+               [] k = "tick" -> Do([o |-> "tick", d |-> 1])
+               [] k = "on_failure" -> \E p \in {contacted[RandomElement(1..Len(contacted))]} : Do([o |-> "on_failure", p |-> p])
+               [] k = "on_success" -> \E p \in {contacted[RandomElement(1..Len(contacted))]} : \E ns \in {RandomElement(NewsSets(p))} :
+                                        Do([o |-> "on_success", p |-> p, news |-> ns])
+MCNext == IF DEPTH > 0 THEN SimNext ELSE \E op \in Ops : Do(op)
 Spec == Init /\ [][MCNext]_vars /\ WF_vars(Do([o |-> "next"])) /\ WF_vars(Do([o |-> "tick", d |-> 1]))
 View == <<q, now, contacted, everStalled, learned, succ, done>>
 
